@@ -232,13 +232,14 @@ func vfC11Find_N(tier int) int {
 	if tier == 0 {
 		return vfNOps + 42
 	}
-	return vfNOps + 42 + vfNOps*vfNOps + vfNOps*vfNOps*vfNOps + 500
+	return vfNOps + 42 + vfNOps*vfNOps + vfNOps*vfNOps*vfNOps/5 + 500
 }
 
 func vfC11Find_Label(c int) string { return vfHistLabel(vfFindIndex(c)) }
 
 // index mapping: 0..14 length-1; 15..44 a slice of the length-2 histories; 45..74 pseudo-random
-// longer histories; beyond (thorough): all length-2 and length-3 histories and 500 more random ones.
+// longer histories; beyond (thorough): all length-2 histories, every fifth length-3 history (675) and
+// 500 more random ones. (All 3375 length-3 histories x 4 query harnesses took more than 50 minutes.)
 func vfFindIndex(c int) int {
 	all := vfNOps + vfNOps*vfNOps + vfNOps*vfNOps*vfNOps
 	if c < vfNOps {
@@ -253,10 +254,14 @@ func vfFindIndex(c int) int {
 		return all + c
 	}
 	c -= 12
-	if c < vfNOps*vfNOps+vfNOps*vfNOps*vfNOps {
+	if c < vfNOps*vfNOps {
 		return vfNOps + c
 	}
-	c -= vfNOps*vfNOps + vfNOps*vfNOps*vfNOps
+	c -= vfNOps * vfNOps
+	if c < vfNOps*vfNOps*vfNOps/5 {
+		return vfNOps + vfNOps*vfNOps + c*5 + c%5
+	}
+	c -= vfNOps * vfNOps * vfNOps / 5
 	return all + 12 + c
 }
 
